@@ -311,7 +311,7 @@ func (ft *funcTrans) instr(in ssa.Instruction) {
 			s := ft.termOf(x.X)
 			es := w.sortOf(xt.Elem())
 			ft.panicCheck("index", fmt.Sprintf("(and %s %s)", w.ile(w.ilit(0), idx), w.ilt(idx, "(s-len "+s.S+")")), x.Pos())
-			ft.vals[x] = &Val{L: &Loc{Kind: LElem, Base: "(s-arr " + s.S + ")", Idx: w.iadd("(s-off "+s.S+")", idx), Heap: w.elemHeap(es), Root: es, Sort: es}}
+			ft.vals[x] = &Val{L: &Loc{Kind: LElem, Base: "(s-arr " + s.S + ")", Idx: w.sidx("(s-off "+s.S+")", idx), Heap: w.elemHeap(es), Root: es, Sort: es}}
 		case *types.Pointer:
 			at := xt.Elem().Underlying().(*types.Array)
 			es := w.sortOf(at.Elem())
